@@ -24,21 +24,37 @@ import (
 // C05 — decoders never panic, never loop forever, never over-allocate on hostile input.
 //
 // ops
-//   wkb <hex> [dest]     => um ; st ; sc ; psc ; wsc ; dsc ; dpsc ; dwsc ; A <um> <st> <scan> <stable>
+//   wkb <hex> [dest]     => um ; st ; sc ; psc ; wsc ; dsc ; dpsc ; dwsc ; wum ; wst ; X <…> ; A <um> <st> <scan> <stable> <wum> <wst>
 //                           ewkb.Unmarshal, the stream Decoder, ewkb.Scanner / ScannerPrefixSRID / wkb.Scanner
 //                           into a nil destination, the same three scanners into the typed destination
-//                           `dest` (one of c01Dests; default any), TotalAlloc of Unmarshal, of Decode and
-//                           of ewkb.Scanner(dest).Scan, re-encoding stability of a returned value
+//                           `dest` (one of c01Dests; default any), wkb.Unmarshal and wkb.NewDecoder(r).Decode()
+//                           (wum, wst), the three scanners handed the bytes as a string / a nil slice (X: class
+//                           only), TotalAlloc of ewkb.Unmarshal, of ewkb Decode, of ewkb.Scanner(dest).Scan, of
+//                           wkb.Unmarshal and of wkb Decode, re-encoding stability of a returned value
+//   selftest [run]       => ok <listed> <called> | fail <missing:name | uncalled:name>… | noprops
+//                           every PUBLIC decoder entry point props.json lists for C05 (c05Entries) must be called
+//                           on the hostile bytes by some op: the table is compared with props.json, sample inputs
+//                           are run through every op and the call counters read (`run`: the counters of this
+//                           shard's whole generation, no samples)
 //   wkbnest <kind> <k>   => ok | err <class> | crash <what> | timeout
 //                           k one-member multi (kind mls, mpoly) / collection (kind coll) headers around an
 //                           empty member, decoded in a CHILD process (a Go stack overflow is fatal, not a panic);
 //                           nestings up to a little beyond wkbcommon.MaxCollectionDepth also travel as `wkb`
 //                           cases, where outcome and allocation are compared with the model
-//   wkt / mvt / gj       the hostile streams of C04 / C03 / C02, run by their runners under a watchdog
+//   wkt / mvt / gj       the hostile streams of C04 / C03 / C02, run by their runners under a watchdog; then every
+//                           listed entry point of the family is called DIRECTLY on the same bytes (c05Direct:
+//                           `; ep <called> <name:panic>…`), the GeoJSON methods as methods (UnmarshalJSON(data) /
+//                           UnmarshalBSON(data), not through json.Unmarshal / bson.Unmarshal as C02's runner does);
+//                           gj also reports `; wf 0|1`: the bytes are a well-formed document (json.Valid /
+//                           the strict parser c05BsonDoc) and, when C02's runner saw a panic, `; pw <origins>`
+//                           (where the panics are raised: orb / bson / other): the known-finding label for
+//                           corrupt BSON requires `wf 0` and `pw bson`;
+//                           the wide families (c05_wide.go): tables of n = 100, 1000, 4000 entries of every kind
 //
-// Quick tier: the budget is apportioned per stream and per sub-family, in this order: witnesses of past
-// fixes and of recorded findings (c05Witnesses, shard 0), the fixed families, a sample of the exhaustive
-// tiny-input families, structure-aware mutations.
+// Quick tier: the budget is apportioned per stream and per sub-family, in this order: the self-test and
+// the witnesses of past fixes and of recorded findings (c05Witnesses, shard 0), the fixed families, a sample
+// of the exhaustive tiny-input families, structure-aware mutations, the wide families (c05_wide.go), the
+// self-test of the call counters.
 
 func init() {
 	// child mode of the `wkbnest` op (see c05NestChild); must run before flag parsing
@@ -102,15 +118,37 @@ func allocDelta(f func()) uint64 {
 
 // c05Measure: TotalAlloc is process-wide (the harness has other goroutines), so a measurement that
 // looks large is repeated and the minimum taken.
-func c05Measure(n int, f func()) uint64 {
+// (16 bytes per input byte + 4 KiB is below every bound Driver/C05 applies: whatever could fail is repeated)
+func c05Measure(n int, f func()) uint64 { return c05MeasureAbove(uint64(16*n+4096), f) }
+
+// c05MeasureAbove: a figure above `thr` is measured again; two measurements that agree are the decoder's
+// own (it is deterministic), two that differ show a burst of the harness's other goroutines, which is
+// waited out (c05Pause) before the next one; the minimum is kept.
+func c05MeasureAbove(thr uint64, f func()) uint64 {
 	a := allocDelta(f)
-	for k := 0; k < 2 && a > uint64(64*n+4096); k++ {
-		if a2 := allocDelta(f); a2 < a {
+	for k := 0; k < 4 && a > thr; k++ {
+		// the repetitions run with GOMAXPROCS 1, as testing.AllocsPerRun does: no other goroutine of the
+		// harness runs in parallel with the measured call
+		a2 := func() uint64 {
+			defer runtime.GOMAXPROCS(runtime.GOMAXPROCS(1))
+			return allocDelta(f)
+		}()
+		same := a2 <= a+512 && a <= a2+512
+		if a2 < a {
 			a = a2
 		}
+		if same {
+			break
+		}
+		c05Pause(k)
 	}
 	return a
 }
+
+// c05Pause: before the k-th repetition of a suspicious measurement.  The harness's collector goroutine
+// allocates while it files an answered line (strings.Fields of a line of 100 000 tokens: megabytes, over
+// several milliseconds): repetitions microseconds apart would all fall into the same burst.
+func c05Pause(k int) { time.Sleep(time.Duration((k+1)*(k+1)) * 5 * time.Millisecond) }
 
 // c05WKTTypedAlloc: the largest TotalAlloc delta of one call among the seven typed WKT parsers.
 func c05WKTTypedAlloc(s string) uint64 {
@@ -123,17 +161,97 @@ func c05WKTTypedAlloc(s string) uint64 {
 	for _, f := range fs {
 		f := f
 		g := func() { guard(func() string { f(); return "" }) }
-		a := allocDelta(g)
-		for k := 0; k < 2 && a > wktAllocBudget(len(s)); k++ {
-			if a2 := allocDelta(g); a2 < a {
-				a = a2
-			}
-		}
+		a := c05MeasureAbove(wktAllocBudget(len(s)), g)
 		if a > worst {
 			worst = a
 		}
 	}
 	return worst
+}
+
+// c05Figures: the allocation figures a delegated runner reports and the length they are judged against
+// (sections `U c n ; G c n d` of C03's runner, `alloc a len t` of C02's, `alloc n` / `talloc n` of C04's and ours).
+func c05Figures(op string, in []string, out string) (worst uint64, n int) {
+	switch op {
+	case "mvt":
+		if in[0] != "empty" {
+			n = len(in[0]) / 2
+		}
+	case "wkt":
+		n = len(wktUnhex(in[0]))
+	}
+	for _, sec := range strings.Split(out, " ; ") {
+		f := strings.Fields(sec)
+		var vals []string
+		switch {
+		case len(f) == 3 && f[0] == "U":
+			vals = f[2:3]
+		case len(f) == 4 && f[0] == "G" && f[3] == "0": // the gzipped call is judged against the unzipped length
+			vals = f[2:3]
+		case len(f) == 4 && f[0] == "alloc":
+			vals = []string{f[1], f[3]}
+			n, _ = strconv.Atoi(f[2])
+		case len(f) == 2 && (f[0] == "alloc" || f[0] == "talloc"):
+			vals = f[1:2]
+		}
+		for _, v := range vals {
+			if u, err := strconv.ParseUint(v, 10, 64); err == nil && u > worst {
+				worst = u
+			}
+		}
+	}
+	return worst, n
+}
+
+// c05Steady runs a delegated runner; when an allocation figure it reports looks large for the input
+// (above the bound the op's driver applies: c05RetryAbove) and the run was
+// quick, the whole runner is run again after a pause, up to three times, and the run with the smallest
+// figure kept.  The runners repeat a suspicious measurement themselves, but microseconds apart, and
+// the bursts of the harness's collector goroutine (see c05Pause) last milliseconds; the decoders are
+// deterministic in what they allocate, so a figure that is large every time is the decoder's.
+// c05RetryAbove: the allocation bounds of Driver/C03 (allocPerByte, allocFixed), Driver/C02 (allocBound) and
+// Driver/C04 (allocC, allocK); used only to decide whether a run is repeated, never for a verdict.
+func c05RetryAbove(op string, n int) uint64 {
+	switch op {
+	case "gj":
+		return uint64(1024*n + 1048576)
+	case "wkt":
+		return wktAllocBudget(n)
+	}
+	return uint64(64*n + 65536)
+}
+
+func c05Steady(op string, in []string, run func() string) string {
+	t0 := time.Now()
+	out := run()
+	// the delegated runners' own watchdogs read the wall clock (C04: 20 s, C02: 3 x 40 s): a stall of the
+	// process makes them fire on inputs that decode in microseconds (seen under load: seven in one thorough
+	// run).  A timeout is given two more chances; a decoder that really loops outlasts them all.
+	for k := 0; k < 2 && out == "timeout"; k++ {
+		time.Sleep(200 * time.Millisecond)
+		t0 = time.Now()
+		out = run()
+	}
+	if out == "timeout" || out == "panic" || strings.HasPrefix(out, "bad") || len(in) == 0 {
+		return out
+	}
+	worst, n := c05Figures(op, in, out)
+	for k := 1; k <= 3 && worst > c05RetryAbove(op, n) && time.Since(t0) < 2*time.Second; k++ {
+		time.Sleep(time.Duration(k*k) * 20 * time.Millisecond)
+		o2 := run()
+		if o2 == "timeout" || o2 == "panic" {
+			break
+		}
+		w2, _ := c05Figures(op, in, o2)
+		same := w2 <= worst+worst/64 && worst <= w2+w2/64
+		if w2 < worst {
+			out, worst = o2, w2
+		}
+		if same { // the same figure twice: the decoder's own
+			break
+		}
+	}
+	return out
 }
 
 // --- runner ---------------------------------------------------------------------------------------
@@ -144,19 +262,58 @@ func runC05(op string, in []string) string {
 		return runC05WKB(in)
 	case "wkbnest":
 		return runC05Nest(in)
+	case "selftest":
+		return runC05SelfTest(in)
 	case "wkt":
 		return guardTL(c05DelegatedLimit, 3, func() string {
-			out := runWKTHostile(in)
-			if out == "timeout" || out == "panic" || len(in) == 0 {
-				return out
+			if len(in) == 0 {
+				return runWKTHostile(in)
 			}
 			// C04's runner measures wkt.Unmarshal; the seven typed parsers are measured here
-			return out + " ; talloc " + strconv.FormatUint(c05WKTTypedAlloc(wktUnhex(in[0])), 10)
+			s := wktUnhex(in[0])
+			out := c05Steady("wkt", in, func() string {
+				o := runWKTHostile(in)
+				if o == "timeout" || o == "panic" {
+					return o
+				}
+				return o + " ; talloc " + strconv.FormatUint(c05WKTTypedAlloc(s), 10)
+			})
+			if out == "timeout" || out == "panic" {
+				return out
+			}
+			return out + " ; " + c05Direct("wkt", []byte(s))
 		})
 	case "mvt":
-		return guardTL(c05DelegatedLimit, 3, func() string { return runMVTHostile(in) })
+		return guardTL(c05DelegatedLimit, 3, func() string {
+			out := c05Steady("mvt", in, func() string { return runMVTHostile(in) })
+			if out == "timeout" || out == "panic" || out == "badinput" {
+				return out
+			}
+			var data []byte
+			if in[0] != "empty" {
+				data, _ = hex.DecodeString(in[0])
+			}
+			return out + " ; " + c05Direct("mvt", data)
+		})
 	case "gj":
-		return guardTL(c05DelegatedLimit, 3, func() string { return runGeoJSONHostile(in) })
+		return guardTL(c05DelegatedLimit, 3, func() string {
+			out := c05Steady("gj", in, func() string { return runGeoJSONHostile(in) })
+			if out == "timeout" || out == "panic" || out == "badinput" || (in[0] != "json" && in[0] != "bson") {
+				return out
+			}
+			var data []byte
+			if in[1] != "empty" {
+				data, _ = hex.DecodeString(in[1])
+			}
+			pw := ""
+			for _, t := range strings.Fields(out) {
+				if t == "panic" {
+					pw = " ; " + c05PanicWho(in[0], data)
+					break
+				}
+			}
+			return out + pw + " ; " + c05WellFormed(in[0], data) + " ; " + c05Direct(in[0], data)
+		})
 	}
 	return "badop"
 }
@@ -189,12 +346,17 @@ func runC05WKB(in []string) string {
 	var umS int
 	var umErr error
 	um := guardT(func() string {
+		c05Hit("encoding/ewkb.Unmarshal")
 		umG, umS, umErr = ewkb.Unmarshal(cp())
 		return wkbOutcome(umG, umS, umErr)
 	})
-	st := guardT(func() string { return wkbOutcome(ewkb.NewDecoder(bytes.NewReader(cp())).Decode()) })
-	// the three scanner wrappers; `which` 0 ewkb.Scanner, 1 ewkb.ScannerPrefixSRID, 2 wkb.Scanner
-	scan := func(which int, d string) string {
+	st := guardT(func() string {
+		c05Hit("encoding/ewkb.NewDecoder", "encoding/ewkb.Decoder.Decode")
+		return wkbOutcome(ewkb.NewDecoder(bytes.NewReader(cp())).Decode())
+	})
+	// the three scanner wrappers; `which` 0 ewkb.Scanner, 1 ewkb.ScannerPrefixSRID, 2 wkb.Scanner;
+	// arg: what Scan is handed — the bytes, the bytes as a string, a nil slice
+	scanArg := func(which int, d string, arg func() interface{}) string {
 		return guardT(func() string {
 			dst, read := newDest(d)
 			var err error
@@ -205,15 +367,18 @@ func runC05WKB(in []string) string {
 			case 0, 1:
 				var s *ewkb.GeometryScanner
 				if which == 0 {
+					c05Hit("encoding/ewkb.Scanner", "encoding/ewkb.GeometryScanner.Scan")
 					s = ewkb.Scanner(dst)
 				} else {
+					c05Hit("encoding/ewkb.ScannerPrefixSRID", "encoding/ewkb.GeometryScanner.Scan")
 					s = ewkb.ScannerPrefixSRID(dst)
 				}
-				err = s.Scan(cp())
+				err = s.Scan(arg())
 				g, srid, valid = s.Geometry, s.SRID, s.Valid
 			default:
+				c05Hit("encoding/wkb.Scanner", "encoding/wkb.GeometryScanner.Scan")
 				s := wkb.Scanner(dst)
-				err = s.Scan(cp())
+				err = s.Scan(arg())
 				g, valid = s.Geometry, s.Valid
 			}
 			if err != nil {
@@ -228,6 +393,7 @@ func runC05WKB(in []string) string {
 			return fmt.Sprintf("ok %d %s", srid, gs(g))
 		})
 	}
+	scan := func(which int, d string) string { return scanArg(which, d, func() interface{} { return cp() }) }
 	outs := []string{um, st}
 	hung := um == "timeout" || st == "timeout"
 	for _, sc := range []struct {
@@ -241,14 +407,67 @@ func runC05WKB(in []string) string {
 		}
 		outs = append(outs, o)
 	}
+	// package wkb's own byte and stream decoder (the wrappers drop the SRID and map the errors)
+	for _, f := range []func() string{
+		func() string {
+			c05Hit("encoding/wkb.Unmarshal")
+			g, err := wkb.Unmarshal(cp())
+			return wkbOutcome(g, 0, err)
+		},
+		func() string {
+			c05Hit("encoding/wkb.NewDecoder", "encoding/wkb.Decoder.Decode")
+			g, err := wkb.NewDecoder(bytes.NewReader(cp())).Decode()
+			return wkbOutcome(g, 0, err)
+		},
+	} {
+		o := "timeout"
+		if !hung {
+			o = guardT(f)
+			hung = o == "timeout"
+		}
+		outs = append(outs, o)
+	}
+	// Scan is handed an interface{}: the same bytes as a string (unsupported data type) and a nil slice
+	// (SQL NULL) must come back too; outcome classes only
+	var xs []string
+	for which := 0; which < 3; which++ {
+		for _, arg := range []func() interface{}{
+			func() interface{} { return string(data) },
+			func() interface{} { return []byte(nil) },
+		} {
+			o := "timeout"
+			if !hung {
+				o = scanArg(which, dest, arg)
+				hung = o == "timeout"
+			}
+			if f := strings.Fields(o); len(f) > 2 && f[0] == "ok" {
+				o = "ok"
+			}
+			xs = append(xs, strings.Replace(o, " ", ":", -1))
+		}
+	}
 	bad := false
-	for _, o := range outs {
+	for _, o := range append(append([]string{}, outs...), xs...) {
 		bad = bad || o == "panic" || o == "timeout"
 	}
-	// allocation of the three kinds of entry point (only when every call came back: the calls are
+	// a long outcome (thousands of tokens for a long geometry) is written once: `= j` stands for outs[j]
+	for i := range outs {
+		for j := 0; j < i; j++ {
+			if len(outs[i]) > 64 && outs[i] == outs[j] {
+				outs[i] = "= " + strconv.Itoa(j)
+				break
+			}
+		}
+	}
+	outs = append(outs, "X "+strings.Join(xs, " "))
+	// allocation of the kinds of entry point (only when every call came back: the calls are
 	// deterministic, so the measured repetitions need no watchdog of their own)
-	var aum, ast, asc uint64
+	var aum, ast, asc, awum, awst uint64
 	if !bad {
+		awum = c05Measure(len(data), func() { guard(func() string { wkb.Unmarshal(cp()); return "" }) })
+		awst = c05Measure(len(data), func() {
+			guard(func() string { wkb.NewDecoder(bytes.NewReader(cp())).Decode(); return "" })
+		})
 		aum = c05Measure(len(data), func() { guard(func() string { ewkb.Unmarshal(cp()); return "" }) })
 		ast = c05Measure(len(data), func() {
 			guard(func() string { ewkb.NewDecoder(bytes.NewReader(cp())).Decode(); return "" })
@@ -272,7 +491,7 @@ func runC05WKB(in []string) string {
 			return "1"
 		}) == "1"
 	}
-	outs = append(outs, fmt.Sprintf("A %d %d %d %s", aum, ast, asc, b2s(stable)))
+	outs = append(outs, fmt.Sprintf("A %d %d %d %s %d %d", aum, ast, asc, b2s(stable), awum, awst))
 	return strings.Join(outs, " ; ")
 }
 
@@ -547,6 +766,8 @@ func genC05(c *Ctx) {
 		q = 30
 	}
 	if c.Shard == 0 {
+		// the table of entry points against props.json, sample inputs through every op
+		c.Case("selftest", "")
 		for _, w := range c05Witnesses(thorough) {
 			c.Case(w.op, w.in)
 		}
@@ -555,6 +776,14 @@ func genC05(c *Ctx) {
 	genC05MVT(c, q, thorough)
 	genC05GJ(c, q, thorough)
 	genC05WKB(c, thorough)
+	// the wide families (few, large cases; sharded; not cut by the time budget): tables of n entries of
+	// every kind.  Last, and the ones with the fewest tokens per line first: the harness's collector
+	// allocates in proportion to the tokens of a line when it files the answer, and TotalAlloc is process-wide
+	genC05WideMVT(c, thorough, func(in string) { c.Case("mvt", in) })
+	genC05WideWKB(c, thorough, func(in string) { c.Case("wkb", in) })
+	genC05WideGJ(c, thorough, func(in string) { c.Case("gj", in) })
+	// every listed entry point has been called on this shard's hostile bytes
+	c.Case("selftest", "run")
 }
 
 // WKT: exhaustive short sentences and the fixed list (all), then mutations.
@@ -677,19 +906,20 @@ func genC05WKB(c *Ctx, thorough bool) {
 			}
 		}
 	}
-	// every 0..2 byte string (quick: sampled second byte)
-	if c.Shard == 0 {
-		c.Case("wkb", "empty")
-		for a := 0; a < 256; a++ {
-			c.Case("wkb", hx([]byte{byte(a)}))
-			for b := 0; b < 256; b += 5 {
-				c.Case("wkb", hx([]byte{byte(a), byte(b)}))
-			}
-		}
-	}
+	// every 0-, 1- and 2-byte string (thorough: all 65536 two-byte strings; quick: every second byte from the
+	// boundary set and a fifth of the others, the residue rotating with the seed), sharded
+	c05ShortWKB(c, thorough, func(b []byte) { c.Case("wkb", hx(b)+" "+c01Dests[(int(m0(b))+len(b))%len(c01Dests)]) })
 	// structure-aware mutations of valid encodings
 	for k := 0; k < c.Budget && !c.Exhausted(); k++ {
-		g := genGeom(r, GenOpts{Mode: []CoordMode{CoordSmallInt, CoordBits}[r.Intn(2)], MaxPts: 5, MaxDepth: 3}, 0)
+		// points per part: mostly a handful, sometimes dozens or hundreds (the cap below is 64 KiB)
+		maxPts := 5
+		switch r.Intn(20) {
+		case 0:
+			maxPts = 400
+		case 1, 2:
+			maxPts = 40
+		}
+		g := genGeom(r, GenOpts{Mode: []CoordMode{CoordSmallInt, CoordBits}[r.Intn(2)], MaxPts: maxPts, MaxDepth: 3}, 0)
 		var o binary.ByteOrder = binary.LittleEndian
 		if r.Intn(2) == 0 {
 			o = binary.BigEndian
@@ -707,10 +937,14 @@ func genC05WKB(c *Ctx, thorough bool) {
 				if len(m) > 0 {
 					m[r.Intn(len(m))] ^= 1 << uint(r.Intn(8))
 				}
-			case 2: // count inflation: overwrite a 4-byte aligned-ish word with a boundary count
+			case 2: // count inflation: overwrite a 4-byte aligned-ish word with a boundary count, or with a
+				// count near what the remaining bytes can hold (16 / 21 / 9 bytes per element), or any count
 				if len(m) >= 9 {
 					p := 5 + r.Intn(len(m)-8)
-					copy(m[p:], u32b(o, counts[r.Intn(len(counts))]))
+					if r.Intn(3) == 0 {
+						p = 5 // the top-level count
+					}
+					copy(m[p:], u32b(o, c05Count(r, counts, len(m)-p-4)))
 				}
 			case 3: // splice another encoding in
 				g2 := genGeom(r, GenOpts{Mode: CoordSmallInt, MaxPts: 3, MaxDepth: 2}, 0)
@@ -743,11 +977,33 @@ func genC05WKB(c *Ctx, thorough bool) {
 				m = append(hdr, m...)
 			}
 		}
-		if len(m) > 4096 {
-			m = m[:4096]
+		if len(m) > 65536 {
+			m = m[:65536]
 		}
 		c.Case("wkb", hx(m)+" "+c01Dests[r.Intn(len(c01Dests))])
 	}
+}
+
+// c05Count: a claimed element count — from the boundary set, near what `rest` remaining bytes can hold at
+// 16 (point), 21 (point member), 9 (empty member) or 4 (ring header) bytes per element, small, or anything.
+func c05Count(r interface{ Intn(int) int }, boundary []uint32, rest int) uint32 {
+	switch r.Intn(5) {
+	case 0:
+		return boundary[r.Intn(len(boundary))]
+	case 1, 2:
+		per := []int{16, 21, 9, 4}[r.Intn(4)]
+		n := rest/per + r.Intn(5) - 2
+		if n < 0 {
+			n = 0
+		}
+		if r.Intn(4) == 0 { // the same count with the 2^28 / 2^32-wrap bit set
+			return uint32(n) | 1<<28
+		}
+		return uint32(n)
+	case 3:
+		return uint32(r.Intn(70000))
+	}
+	return uint32(r.Intn(1<<16))<<16 | uint32(r.Intn(1<<16))
 }
 
 func m0(m []byte) byte {
